@@ -208,6 +208,18 @@ async fn run_hist(store: &SqliteStore, h: &Hist, ch: &Chooser) -> Obs {
     o
 }
 
+/// The in-memory database lives in its pooled connection; when a store call is cancelled at the
+/// wrong moment sqlx discards that connection and the next call sees an empty database ("no such
+/// table").  That is an artefact of the in-memory test store, not an outcome of the orderer: the
+/// execution is repeated on a fresh store (up to three times) before it is reported as an error.
+/// The in-memory database lives in its pooled connection; when a store call is cancelled at the
+/// wrong moment sqlx discards that connection and the next call sees an empty database ("no such
+/// table").  That is an artefact of the in-memory test store, not an outcome of the orderer: such
+/// an execution is repeated on a fresh store (up to three times) before it is reported as an error.
+fn database_vanished(o: &Obs) -> bool {
+    o.error.as_deref().is_some_and(|e| e.contains("no such table"))
+}
+
 fn exec(h: &Hist, ch: &Chooser) -> Obs {
     if too_much_trouble() {
         return Obs {
@@ -468,8 +480,17 @@ pub fn run(mut rep: Report) -> i32 {
         let st = dfs_par(
             &cfg,
             |ch| {
-                let h = pick_hist(ch, part, pi);
-                let o = exec(&h, ch);
+                let mut h = pick_hist(ch, part, pi);
+                let mut o = exec(&h, ch);
+                for _ in 0..3 {
+                    if !database_vanished(&o) {
+                        break;
+                    }
+                    // repeat the whole execution (all its decisions) on a fresh store
+                    ch.reset();
+                    h = pick_hist(ch, part, pi);
+                    o = exec(&h, ch);
+                }
                 (h, o)
             },
             |ch, (h, o)| {
